@@ -481,3 +481,167 @@ Example validate_missing_hash_panics :
   validate (mk_ffin 4 [1] [([0; 3], FAgg [1] [0; 1; 2]%Z)] []) [] =
   Panic "ValidateFinalizedProof:468(missing main hash)".
 Proof. vm_compute. reflexivity. Qed.
+
+(* ------------------------------------------------------------------ a double signer: Finalize panics *)
+Lemma disj_used_dec used l : disj_used used l \/ exists x, In x l /\ N.testbit used (Z.to_N x) = true.
+Proof.
+  induction l as [|a l IH]; [left; intros x []|].
+  destruct (N.testbit used (Z.to_N a)) eqn:E.
+  - right. exists a. split; [left; reflexivity|exact E].
+  - destruct IH as [H|(x & Hx & Ex)].
+    + left. intros x [<-|Hx]; [exact E|apply H; exact Hx].
+    + right. exists x. split; [right; exact Hx|exact Ex].
+Qed.
+
+Lemma finalize_rest_overlap n : (0 <= n)%Z -> forall bs used out, below n used ->
+  Forall (fun b => asc_in n (snd b)) bs -> ~ blocks_ok n used bs ->
+  exists s, finalize_rest n (map fp_of bs) used out = Panic s.
+Proof.
+  intros Hn. induction bs as [|b t IH]; intros used out Hb Hall Hno; [exfalso; apply Hno; exact I|].
+  inversion Hall as [|? ? Ha Hall']; subst. cbn [map].
+  destruct (disj_used_dec used (snd b)) as [Hd|(x & Hx & Ex)].
+  - assert (Hno' : ~ blocks_ok n (N.lor used (mask_of (snd b))) t).
+    { intros H. apply Hno. cbn [blocks_ok]. auto. }
+    destruct (nonempty b) eqn:Hne.
+    + rewrite finalize_rest_step by assumption. apply IH; try assumption.
+      apply lor_below; [exact Hb|]. apply (mask_of_below 0 n); [lia|exact Ha].
+    + assert (E : snd b = []) by (unfold nonempty in Hne; destruct (snd b); [reflexivity|discriminate]).
+      rewrite finalize_rest_step_empty by exact E.
+      rewrite E in Hno'. cbn [mask_of] in Hno'. rewrite N.lor_0_r in Hno'. apply IH; assumption.
+  - destruct b as [m l]. cbn [fst snd] in *. cbn [finalize_rest fp_of fp_bits fp_msg fst snd].
+    rewrite (popcountZ_mask_of_len n l Ha).
+    destruct l as [|y l']; [contradiction|]. set (l := y :: l') in *.
+    assert (Hlen : (lenZ l =? 0)%Z = false) by (unfold l; rewrite lenZ_cons; pose proof (lenZ_nonneg l'); lia).
+    rewrite Hlen. rewrite create_projection_ok by assumption. cbn [bind].
+    rewrite (bits_all_mask_of n l Ha).
+    destruct (project_bits_panic (proj_of n used) l 0 used) as (s & Es).
+    { exists x. split; [exact Hx|]. intros Hin. apply proj_of_In in Hin. destruct Hin as [_ Hf]. congruence. }
+    rewrite Es. cbn [bind]. eexists; reflexivity.
+Qed.
+
+Lemma asc_from_NoDup : forall l lo n, asc_from lo n l -> NoDup l.
+Proof.
+  induction l as [|i l IH]; intros lo n H; [constructor|]. destruct H as [Hi Hl]. constructor.
+  - intros Hin. pose proof (asc_from_In _ _ _ _ Hl Hin). lia.
+  - eapply IH. exact Hl.
+Qed.
+
+Lemma NoDup_app' {A} (a b : list A) : NoDup a -> NoDup b -> (forall x, In x a -> ~ In x b) -> NoDup (a ++ b).
+Proof.
+  induction a as [|x a IH]; intros Ha Hb Hd; [exact Hb|]. inversion Ha as [|? ? Hni Ha']; subst.
+  cbn [app]. constructor.
+  - rewrite in_app_iff. intros [H|H]; [contradiction|]. exact (Hd x (or_introl eq_refl) H).
+  - apply IH; [exact Ha'|exact Hb|]. intros y Hy. apply Hd. right. exact Hy.
+Qed.
+
+Lemma nodup_of_blocks_ok n : forall bs used U, lists_used used U -> NoDup U ->
+  (forall x, In x U -> (0 <= x)%Z) -> blocks_ok n used bs -> NoDup (U ++ List.concat (map snd bs)).
+Proof.
+  induction bs as [|b t IH]; intros used U HU Hnd Hnn Hok.
+  - cbn [map List.concat]. rewrite app_nil_r. exact Hnd.
+  - destruct Hok as (Ha & Hd & Hok). cbn [map List.concat]. rewrite app_assoc.
+    apply (IH (N.lor used (mask_of (snd b)))).
+    + intros x Hx. rewrite N.lor_spec, orb_true_iff, in_app_iff, (HU x Hx).
+      rewrite (mask_of_testbit_In (snd b) x); [tauto| |exact Hx].
+      intros y Hy. pose proof (asc_from_In _ _ _ _ Ha Hy). lia.
+    + apply NoDup_app'; [exact Hnd|eapply asc_from_NoDup; exact Ha|].
+      intros x Hx Hxb. pose proof (Hd x Hxb) as F. apply (HU x (Hnn x Hx)) in Hx. congruence.
+    + intros x Hx. apply in_app_iff in Hx as [Hx|Hx]; [apply Hnn; exact Hx|].
+      pose proof (asc_from_In _ _ _ _ Ha Hx). lia.
+    + exact Hok.
+Qed.
+
+(** What the code does when the blocks are NOT pairwise disjoint (some validator signed two of them):
+    Finalize panics, for every key-set size, every such partition and every order of the rest proofs.
+    So ValidateFinalizedProof never gets to report a double signer. *)
+Theorem finalize_double_signer_panics : forall n main rest,
+  (0 <= n)%Z -> Forall (fun b => asc_in n (snd b)) (main :: rest) -> NoDup (map fst rest) ->
+  ~ NoDup (List.concat (map snd (main :: rest))) ->
+  exists s, finalize n (fp_of main) (map fp_of rest) = Panic s.
+Proof.
+  intros n [mm lm] rest Hn Hall Hmsgs Hno.
+  inversion Hall as [|? ? Ham Hall']; subst. cbn [fst snd] in *. cbn [map List.concat] in Hno.
+  unfold finalize. cbn [fp_of fp_bits fp_msg fst snd].
+  rewrite (encode_mask_rank n lm Ham). cbn [bind].
+  destruct rest as [|r0 rest'].
+  - exfalso. apply Hno. cbn [map List.concat]. rewrite app_nil_r. eapply asc_from_NoDup. exact Ham.
+  - set (rest := r0 :: rest') in *.
+    assert (Hnd : NoDup (map fp_msg (map fp_of rest))) by (rewrite map_fp_msg; exact Hmsgs).
+    destruct (sort_rest_spec _ Hnd) as (s & Es & Hperm & Hss).
+    apply Permutation_map_inv in Hperm as (sb & -> & Hperm).
+    change (map fp_of rest) with (fp_of r0 :: map fp_of rest') at 1.
+    cbv iota. fold rest. rewrite Es. cbn [bind].
+    assert (Hall_sb : Forall (fun b => asc_in n (snd b)) sb) by (eapply Permutation_Forall; eassumption).
+    destruct (finalize_rest_overlap n Hn sb (mask_of lm) []) as (p & Ep).
+    + apply (mask_of_below 0 n); [lia|exact Ham].
+    + exact Hall_sb.
+    + intros Hok. apply Hno.
+      eapply Permutation_NoDup; [apply Permutation_app_head; apply Permutation_concat_map; apply Permutation_sym; exact Hperm|].
+      apply (nodup_of_blocks_ok n sb (mask_of lm) lm); [apply (lists_used_mask n); exact Ham| | |exact Hok].
+      * eapply asc_from_NoDup. exact Ham.
+      * intros x Hx. pose proof (asc_from_In _ _ _ _ Ham Hx). lia.
+    + rewrite Ep. cbn [bind]. eexists; reflexivity.
+Qed.
+
+(** The property's sentence "... with double signers reported, never panics" is false of the faithful model:
+    4 keys, validators 0,1,2 sign block [1], validator 2 also signs [2]. *)
+Theorem finalize_validate_double_signer_refuted :
+  exists n main rest hashes,
+    (0 <= n < 65536)%Z /\ Forall (fun b => asc_in n (snd b)) (main :: rest) /\ snd main <> [] /\
+    NoDup (map fst (main :: rest)) /\
+    (forall b, In b (main :: rest) -> alist_find (fst b) hashes <> None) /\
+    finalize_validate n (fp_of main) (map fp_of rest) hashes =
+    Panic "Finalize:253(index not part of the projection)".
+Proof.
+  exists 4%Z, ([1], [0; 1; 2]%Z), [([2], [2%Z])], [([1], [201]); ([2], [202])].
+  split; [lia|]. split; [repeat constructor; unfold asc_in; cbn [asc_from snd]; lia|].
+  split; [discriminate|]. split; [repeat constructor; cbn; intuition discriminate|].
+  split; [intros b [<-|[<-|[]]]; discriminate|].
+  vm_compute. reflexivity.
+Qed.
+
+(** Guard of the round trip: a main proof nobody signed gives key id [0;0], which
+    ValidateFinalizedProof rejects (nil, false). *)
+Example finalize_validate_empty_main_rejected :
+  finalize_validate 4 (fp_of ([1], [])) [fp_of ([2], [2%Z])] [([1], [201]); ([2], [202])] = Ok (None, false).
+Proof. vm_compute. reflexivity. Qed.
+
+(* ------------------------------------------------------------------ non-vacuity *)
+Definition ex_main : block := ([1], [0; 1; 2; 3; 4; 5]%Z).
+Definition ex_rest : list block := [([3], [8%Z]); ([2], [6; 7]%Z); ([4], []); ([5], [9%Z])].
+Definition ex_hashes : list (list N * list N) := [([1], [201]); ([2], [202]); ([3], [203]); ([4], [204]); ([5], [205])].
+Definition ex_hf (m : list N) : list N := [200 + hd 0 m].
+
+(** Three non-empty rest blocks of sizes 1, 2, 1 handed over in an order that is not Finalize's, and one
+    empty block: reduced key spaces C(4,2), C(2,1), C(1,1). *)
+Example ex_roundtrip_computed :
+  finalize_validate 10 (fp_of ex_main) (map fp_of ex_rest) ex_hashes =
+  Ok (Some [([201], 63); ([202], 192); ([203], 256); ([205], 512)], true).
+Proof. vm_compute. reflexivity. Qed.
+
+Example ex_finalized :
+  finalize 10 (fp_of ex_main) (map fp_of ex_rest) =
+  Ok (mk_ffin 10 [1] [([0; 6], FAgg [1] [0; 1; 2; 3; 4; 5]%Z)]
+        [([2], [([0; 2], FAgg [2] [6; 7]%Z)]); ([3], [([0; 1], FAgg [3] [8%Z])]); ([5], [([0; 1], FAgg [5] [9%Z])])]).
+Proof. vm_compute. reflexivity. Qed.
+
+(** The hypotheses of [finalize_validate_roundtrip] are satisfiable (by that example). *)
+Example ex_roundtrip_hypotheses :
+  (0 <= 10 < 65536)%Z /\ Forall (fun b => asc_in 10 (snd b)) (ex_main :: ex_rest) /\ snd ex_main <> [] /\
+  NoDup (List.concat (map snd (ex_main :: ex_rest))) /\ NoDup (map fst (ex_main :: ex_rest)) /\
+  (forall b, In b (ex_main :: ex_rest) -> alist_find (fst b) ex_hashes = Some (ex_hf (fst b))) /\
+  NoDup (map (fun b => ex_hf (fst b)) (ex_main :: ex_rest)).
+Proof.
+  split; [lia|]. split; [repeat constructor; unfold asc_in; cbn [asc_from snd ex_main]; lia|].
+  split; [discriminate|].
+  split; [cbn; repeat (constructor; [cbn; intuition lia|]); constructor|].
+  split; [cbn; repeat (constructor; [cbn; intuition discriminate|]); constructor|].
+  split; [intros b [<-|[<-|[<-|[<-|[<-|[]]]]]]; reflexivity|].
+  cbn; repeat (constructor; [cbn; intuition discriminate|]); constructor.
+Qed.
+
+(** A non-empty rest block that is smaller than a later one: the sorted order differs from the input order,
+    and a proof in ascending-size order would not validate (the seeded change the round trip must catch). *)
+Example ex_order_matters :
+  finalize 10 (fp_of ex_main) (map fp_of ex_rest) = finalize 10 (fp_of ex_main) (map fp_of (rev ex_rest)).
+Proof. vm_compute. reflexivity. Qed.
